@@ -515,6 +515,45 @@ def gen_c04(tier, seed):
             d["min"] = lim_ns
             d["n"] = rng.choice([1, 2, max(1, R - 1)])
         out.append(line(d))
+    out += gen_budget_conversion(tier, seed, first_id=2 * N)
+    return out
+
+
+def gen_budget_conversion(tier, seed, first_id=0):
+    """Time limits whose Duration -> picosecond conversion is put on a knife edge: a 1 ns clock (OS timer or a 1 GHz counter), rounds of
+    exactly p ns, and a limit of D = r*p + 1 ns, so the elapsed time after round r stands one nanosecond below the limit. D is taken
+    from the values for which (D / 1e9) * 1e9 computed in binary floating point falls below D (about 2% of all values): a limit that
+    travels through f64 on its way to picoseconds comes out 1 ns short and the run stops a round early (or late, for min_time)."""
+    rng = random.Random(seed * 4001 + 44)
+    out = []
+    want = 60 if tier == "quick" else 2000
+    tries = 0
+    while len(out) < want and tries < want * 400:
+        tries += 1
+        r = rng.choice([2, 3, 4, 5, 8, 13, 20])
+        pticks = rng.choice([3, 4, 7, 10, 33, 100, 1000, 4999, rng.randrange(3, 10 ** 6), rng.randrange(3, 10 ** 8)])
+        D = r * pticks + 1
+        secs, nanos = divmod(D, 10 ** 9)
+        as_f64 = float(secs) + float(nanos) / 1e9
+        if int(as_f64 * 1e9) >= D:
+            continue
+        k = len(out)
+        d = {"id": first_id + k, "entry": rng.choice([0, 0, 1, 2, 4]), "T": 1, "seed": rng.randrange(1 << 30), "fplog": 0, "freq": 10 ** 9, "delta": 1, "q": 1,
+             "s": 1, "cbase": pticks - 2, "cstep": 0, "cmod": 1, "cthr": 0, "cnoise": 0, "gcost": 0, "dicost": 0, "docost": 0, "skip": rng.choice([-1, 0]),
+             "oshape": "z"}
+        if d["entry"] >= 2:
+            d["ishape"] = "s"
+        if k % 2 == 0:
+            d["tsc"], d["vos"] = 0, 1        # the OS timer on the scripted source
+        else:
+            d["_novos"] = True
+        if k % 3 != 2:
+            d["max"] = D
+            d["n"] = r + rng.choice([2, 5])
+        else:
+            d["min"] = D
+            d["n"] = rng.choice([1, 2])
+        out.append(line(d))
     return out
 
 
